@@ -321,10 +321,121 @@ def canon_obs(obs):
 
 
 # --------------------------------------------------------------------------
-# model side (filled in by the correspondence section below)
+# model side
 
-def model_lines(case):
-    return None
+def _cap(x):
+    return Atom(x.capitalize())
+
+
+def wire_opt(o):
+    k = o[0]
+    if k in ('absent', 'none'):
+        return [_cap(k)]
+    if k == 'bool':
+        return [_cap(k), B(o[1])]
+    if k == 'int':
+        return [_cap(k), int(o[1])]
+    return [_cap(k), o[1]]
+
+
+def wire_cfg(cfg):
+    return [_cap(cfg['tmpl']), _cap(cfg['loader']), wire_opt(cfg['opt']), B(cfg['auto_reload'])]
+
+
+def wire_root(case):
+    root, syn = case['root'], case['files'][0]['syn']
+    if root['kind'] == 'direct':
+        return [Atom('Direct'), _cap(syn), _cap(root['src']), B(root['own_loader'])]
+    if root['kind'] == 'load':
+        return [Atom('Load'), _cap(syn), B(root['cls'] == 'default')]
+    if root['kind'] == 'plugin-file':
+        return [Atom('Pfile'), _cap(root['plugin'])]
+    return [Atom('Pstr'), _cap(root['plugin'])]
+
+
+def chain_of(case):
+    """the include chain (parse modes) when the case is a linear chain whose only code block sits,
+    unconditionally executed, in the deepest template; else None"""
+    if case.get('history'):
+        return None
+    fm = G.file_map(case)
+    chain, cur, seen = [], case['files'][0], set()
+    while True:
+        if cur['name'] in seen:
+            return None
+        seen.add(cur['name'])
+        incs = G.includes(cur)
+        codes = G.code_items(cur)
+        if len(incs) > 1:
+            return None
+        if incs:
+            if codes or incs[0][1] not in fm:
+                return None
+            chain.append(incs[0][2])
+            cur = fm[incs[0][1]]
+            continue
+        if len(codes) != 1 or G.MULT[codes[0][2]] == 0:
+            return None
+        return chain
+
+
+def real_verdict(obs):
+    if obs['sentinel']:
+        return 'exec'
+    if obs['outcome'] == 'ConfigurationError':
+        return 'none'
+    if obs['outcome'] == 'TemplateSyntaxError':
+        return 'reject'
+    if obs['outcome'] == 'ok':
+        return 'inert'
+    return 'failed'
+
+
+def reach_line(case, chain):
+    return proto.line(Atom('C14'), Atom('reach'), *(wire_cfg(case['cfg']) + [wire_root(case), [_cap(p) for p in chain]]))
+
+
+def compare_reach(pairs, res):
+    """pairs: (case, obs) of chain cases; model verdict for the deepest template vs what happened"""
+    lines, keep = [], []
+    for case, obs in pairs:
+        ch = chain_of(case)
+        if ch is None:
+            continue
+        lines.append(reach_line(case, ch))
+        keep.append((case, obs))
+    for (case, obs), ans in zip(keep, proto.run_lines(lines)):
+        res.streams['reach'] = res.streams.get('reach', 0) + 1
+        try:
+            nodes = proto.dec(ans)
+            last = nodes[-1] if isinstance(nodes, list) else nodes
+            model = 'none' if last == 'none' else str(last[1])
+        except Exception:  # noqa
+            model = 'bad-answer:' + ans[:60]
+        real = real_verdict(obs)
+        res.count('reach-verdict:' + model)
+        if model != real:
+            res.disagreements.append({'stream': 'reach', 'case': case, 'model': model, 'real': real})
+
+
+def compare_parseopt(res):
+    """option parsing of every probed spelling on each plugin class vs parseOpt"""
+    from genshi.template.plugin import MarkupTemplateEnginePlugin, TextTemplateEnginePlugin, ConfigurationError
+    spell = G.all_spellings()
+    answers = proto.run_lines([proto.line(Atom('C14'), Atom('parseopt'), wire_opt(o)) for o in spell])
+    for o, ans in zip(spell, answers):
+        for cls in (MarkupTemplateEnginePlugin, TextTemplateEnginePlugin):
+            options = {} if o[0] == 'absent' else {'genshi.allow_exec': _opt_value(o)}
+            try:
+                real = 'allow' if cls(options=options).loader.allow_exec else 'deny'
+            except ConfigurationError:
+                real = 'confError'
+            except Exception as e:  # noqa
+                real = 'failed:' + type(e).__name__
+            res.streams['parseopt'] = res.streams.get('parseopt', 0) + 1
+            if ans != real:
+                res.disagreements.append({'stream': 'parseopt', 'case': {'opt': o, 'plugin': cls.__name__},
+                                          'model': ans, 'real': real})
 
 
 # --------------------------------------------------------------------------
@@ -346,9 +457,11 @@ def shard(arg):
     rng = random.Random('%s/%s/C14' % (seed, idx))
     cases += [G.random_case(rng) for _ in range(nrandom)]
     os.makedirs(SCRATCH, exist_ok=True)
+    pairs = []
     for case in cases:
         res.evaluations += 1
         obs, fail = judge(case)
+        pairs.append((case, obs))
         res.count('root:' + case['root']['kind'])
         res.count('outcome:' + obs['outcome'])
         res.count('depth:%d' % (len(G.reachable(case)) - 1))
@@ -358,6 +471,9 @@ def shard(arg):
             res.nontrivial.add(k)
         if fail:
             res.failures.append(fail)
+    compare_reach(pairs, res)
+    if idx == 0:
+        compare_parseopt(res)
     res.samples = cases[:2]
     return res
 
